@@ -623,3 +623,16 @@ Example C14_int_syntax_example :
   parse_int [57;50;50;51;51;55;50;48;51;54;56;53;52;55;55;53;56;48;56] 0 64 = NErr NRange /\
   parse_int [50;49;52;55;52;56;51;54;52;56] 0 32 = NErr NRange.
 Proof. vm_compute. repeat split. Qed.
+
+(* a whole command line in a file tree: `knut check j` and `knut print --x j` where j is an empty journal,
+   `knut check missing` and `knut infer -t nothere j` *)
+Example C14_run_argv_example :
+  let fs : fsys := [([[106]], LoaderM.FOk [])] in
+  run_argv CmdCheck 0 [[106]] fs = ORun PredOK /\
+  run_argv CmdPrint 0 [[45;45;120]; [106]] fs = ORejected (PUnknownFlag [120]) /\
+  run_argv CmdCheck 0 [[109]] fs = ORun PredERR /\
+  run_argv CmdInfer 0 [[45;116]; [110]; [106]] fs = ORun PredERR /\
+  run_argv CmdInfer 0 [[45;116]; [106]; [106]] fs = ORun PredOK /\
+  run_argv CmdTranscode 0 [[106]] fs = ORun PredERR /\
+  run_argv CmdBalance 0 [[45;45;104;101;108;112]; [106]] fs = OHelp.
+Proof. vm_compute. repeat split. Qed.
